@@ -9,7 +9,9 @@ EXTENDS OrderedMap, TLC, Json
 
 CONSTANTS MaxLen, Docs   \* Docs: sequence of documents (each a Seq of <<k,v>>) to unmarshal
 
-VARIABLE hist
+VARIABLES hist,
+          old      \* the receiver a filter/map left behind (initially an unrelated empty map): derived maps are
+                   \* fresh values, so later operations on either map must not show in the other
 
 KeyRankH      == [a |-> 1, b |-> 2, c |-> 3]
 Asc(a, b)     == KeyRankH[a] < KeyRankH[b]
@@ -23,6 +25,8 @@ Ops == [op : {"set"}, k : Keys, v : Vals]
        \cup [op : {"unmarshal"}, doc : 1..Len(Docs)]
        \cup [op : {"filter"}, keep : Vals]     \* m := m.Filter(value = keep)
        \cup [op : {"map"}, k : Keys]           \* m := m.Map(value of key k flipped 1<->2)
+       \cup [op : {"oldsort"}]                 \* sort the abandoned receiver (descending)
+       \cup [op : {"oldset"}, k : {"c"}, v : {2}] \* set a key on the abandoned receiver
 
 Flip(v) == 3 - v
 
@@ -35,16 +39,22 @@ Apply(s, o) ==
     [] o.op = "unmarshal" -> UnmarshalF(s, Docs[o.doc])
     [] o.op = "filter"    -> FilterF(LAMBDA k, v : v = o.keep, s)
     [] o.op = "map"       -> MapF(LAMBDA k, v : IF k = o.k THEN Flip(v) ELSE v, s)
+    [] o.op \in {"oldsort", "oldset"} -> s
+ApplyOld(s, cur, o) ==
+  CASE o.op \in {"filter", "map"} -> cur            \* the receiver stays behind, unchanged
+    [] o.op = "oldsort" -> SortByF(Desc, s)
+    [] o.op = "oldset"  -> SetF(s, o.k, o.v)
+    [] OTHER -> s
 
-HInit == m = <<>> /\ hist = <<>>
+HInit == m = <<>> /\ hist = <<>> /\ old = <<>>
 HNext == /\ Len(hist) < MaxLen
-         /\ \E o \in Ops : hist' = Append(hist, o) /\ m' = Apply(m, o)
-HSpec == HInit /\ [][HNext]_<<m, hist>>
+         /\ \E o \in Ops : hist' = Append(hist, o) /\ m' = Apply(m, o) /\ old' = ApplyOld(old, m, o)
+HSpec == HInit /\ [][HNext]_<<m, hist, old>>
 
 \* design-level invariants hold along every history (incl. sort/filter/map/unmarshal)
 HNoDup == NoDup(m)
 HLenLive == Len(m) = Cardinality(KeysOf(m))
 
 AsPairs(s) == [i \in 1..Len(s) |-> [k |-> s[i][1], v |-> s[i][2]]]
-Emit == PrintT(<<"HIST", ToJson([hist |-> hist, m |-> AsPairs(m)])>>)
+Emit == PrintT(<<"HIST", ToJson([hist |-> hist, m |-> AsPairs(m), old |-> AsPairs(old)])>>)
 ===============================================================================
